@@ -26,9 +26,15 @@ type c02Child struct {
 	Ref  string `json:"ref"`
 }
 
+type c02Inl struct {
+	Site string `json:"site"`
+	ID   string `json:"id"`
+}
+
 type c02Content struct {
 	ID  string     `json:"id"`
 	Ch  []c02Child `json:"ch"`
+	Inl []c02Inl   `json:"inl"`
 	Ref string     `json:"ref"`
 }
 
@@ -83,6 +89,14 @@ func c02Concrete(kind string, c c02Content) map[string]any {
 		panic("harness: c02 kind " + kind)
 	}
 	o["x-id"] = id + c02Salt
+	for _, in := range c.Inl {
+		// an inline concrete object (reachable only through a JSON pointer into this object)
+		if kind == "schemas" && in.Site == "properties" {
+			o["properties"] = map[string]any{"p": map[string]any{"type": "string", "x-id": in.ID + c02Salt}}
+		} else {
+			panic("harness: c02 inline site " + kind + ":" + in.Site)
+		}
+	}
 	for _, ch := range c.Ch {
 		r := refObj(ch.Ref)
 		switch kind + ":" + ch.Site {
